@@ -1423,9 +1423,12 @@ func judgeFill(r *Reporter, rule, key string, f *FuncCFG, c *ast.CallExpr, pt Po
 
 // remaining-length guards: edges on which `K <= len(d.src[d.offset:])` is known.
 type lenGuard struct {
-	e     Edge
-	other string // the expression compared with the remaining length
-	value *int64 // its constant value, if constant
+	e        Edge
+	other    string // the expression compared with the remaining length
+	otherRes string // the same, resolved into the frame of the analysed function (a helper's parameter is the caller's argument)
+	otherE   ast.Expr
+	otherPt  Point
+	value    *int64 // its constant value, if constant
 }
 
 func remainingLenGuards(f *FuncCFG) []lenGuard {
@@ -1520,6 +1523,10 @@ func remainingLenGuards(f *FuncCFG) []lenGuard {
 			if v, ok := constInt(info, other); ok {
 				g.value = &v
 			}
+			if len(e.From.Nodes) > 0 && f.regionOf[e.From] != nil {
+				g.otherRes = f.KeyAt(other, Point{e.From, len(e.From.Nodes) - 1})
+				g.otherE, g.otherPt = other, Point{e.From, len(e.From.Nodes) - 1}
+			}
 		}
 		out = append(out, g)
 	}
@@ -1558,6 +1565,66 @@ func remainingLenGuards(f *FuncCFG) []lenGuard {
 	return out
 }
 
+// endOffsetOrigins: e (an identifier read at pt) stands for an end offset. Every value it can have
+// there must be `offset + K` (then obligation(origin point, K) is raised for it) and the offset must
+// not have moved between that computation and pt. Returns a reason when some origin has another form
+// (no obligation is raised then).
+func endOffsetOrigins(f *FuncCFG, e ast.Expr, pt Point, isOff func(ast.Expr) bool, obligation func(Point, ast.Expr)) string {
+	os := f.Origins(e, pt)
+	if len(os) == 0 {
+		return "no origin"
+	}
+	type ob struct {
+		pt Point
+		k  ast.Expr
+	}
+	var obs []ob
+	for _, o := range os {
+		hb, ok := ast.Unparen(o.E).(*ast.BinaryExpr)
+		if !ok || hb.Op != token.ADD || !isOff(hb.X) {
+			return "origin " + exprKey(o.E) + " is not offset+K"
+		}
+		// the offset is unchanged between the computation and the use
+		if _, moved := f.reach(Point{o.At.B, o.At.I + 1}, nil, func(q Point, atExit bool) bool {
+			if atExit || f.At(q, pt) {
+				return false
+			}
+			n := f.nodeAt(q)
+			if n == nil {
+				return false
+			}
+			hit := false
+			inspectNoLit(n, func(m ast.Node) bool {
+				switch x := m.(type) {
+				case *ast.AssignStmt:
+					for _, l := range x.Lhs {
+						if isOff(l) {
+							hit = true
+						}
+					}
+				case *ast.IncDecStmt:
+					if isOff(x.X) {
+						hit = true
+					}
+				}
+				return !hit
+			})
+			if !hit {
+				return false
+			}
+			_, reaches := f.reach(Point{q.B, q.I + 1}, nil, func(q2 Point, atExit2 bool) bool { return !atExit2 && f.At(q2, pt) })
+			return reaches
+		}); moved {
+			return "the offset moves between the computation of the end offset and its use"
+		}
+		obs = append(obs, ob{o.At, hb.Y})
+	}
+	for _, o := range obs {
+		obligation(o.pt, o.k)
+	}
+	return ""
+}
+
 func checkDeserializerBounds(r *Reporter, p *Prog) {
 	info := p.Pkg(pkgSer).TypesInfo
 	nSites := 0
@@ -1571,11 +1638,18 @@ func checkDeserializerBounds(r *Reporter, p *Prog) {
 		f := newFuncCFG(p, info, fd.Body, fkey)
 		guards := remainingLenGuards(f)
 		// need(pt, K): pt is only reachable through an edge on which K bytes are known to remain
+		kRes := ""
+		var kResE ast.Expr
+		var kResPt Point
 		edgesFor := func(kKey string, kVal int64, kConst bool) []Edge {
 			var edges []Edge
 			for _, g := range guards {
 				switch {
 				case g.other == kKey:
+					edges = append(edges, g.e)
+				case kRes != "" && g.otherRes == kRes:
+					edges = append(edges, g.e)
+				case kResE != nil && g.otherE != nil && f.SameValue(g.otherE, g.otherPt, kResE, kResPt):
 					edges = append(edges, g.e)
 				case kConst && g.value != nil && *g.value >= kVal:
 					edges = append(edges, g.e)
@@ -1600,6 +1674,8 @@ func checkDeserializerBounds(r *Reporter, p *Prog) {
 			}
 			kKey := exprKey(kExpr)
 			kVal, kConst := constInt(info, kExpr)
+			kRes, kResE, kResPt = f.KeyAt(kExpr, pt), kExpr, pt
+			defer func() { kRes, kResE = "", nil }()
 			if w, only := f.OnlyThroughEdges(pt, edgesFor(kKey, kVal, kConst)); only {
 				r.Pass(rule, key, pos, "dominated by a remaining-length check for the same size")
 				return
@@ -1656,6 +1732,16 @@ func checkDeserializerBounds(r *Reporter, p *Prog) {
 						key := fmt.Sprintf("%s in %s", exprKey(x), fkey)
 						hb, ok := ast.Unparen(x.High).(*ast.BinaryExpr)
 						if !ok || hb.Op != token.ADD || !isOff(hb.X) {
+							// an end offset computed earlier (`end := offset+K`, possibly inside a helper that
+							// also made the check): every value it can stand for here must be offset+K,
+							// computed where K bytes were known to remain, with the offset unmoved since
+							if _, isId := ast.Unparen(x.High).(*ast.Ident); isId {
+								if why := endOffsetOrigins(f, x.High, pt, isOff, func(opt Point, k ast.Expr) {
+									need("deser/bounds-guarded", key, p.posStr(x.Pos()), opt, k, 0, "the source is sliced up to an end offset computed as offset+K (out-of-range panic / over-read on truncated input)")
+								}); why == "" {
+									return true
+								}
+							}
 							r.Fail("deser/bounds-guarded", key, p.posStr(x.Pos()), "upper bound is not of the form offset+K: cannot relate it to a remaining-length check")
 							return true
 						}
@@ -1674,6 +1760,14 @@ func checkDeserializerBounds(r *Reporter, p *Prog) {
 							}
 						}
 					case *ast.AssignStmt:
+						if x.Tok == token.ASSIGN && len(x.Lhs) == 1 && len(x.Rhs) == 1 && isOff(x.Lhs[0]) {
+							if _, isId := ast.Unparen(x.Rhs[0]).(*ast.Ident); isId {
+								akey := fmt.Sprintf("%s = %s in %s", exprKey(x.Lhs[0]), exprKey(x.Rhs[0]), fkey)
+								endOffsetOrigins(f, x.Rhs[0], pt, isOff, func(opt Point, k ast.Expr) {
+									need("deser/offset-advance-guarded", akey, p.posStr(x.Pos()), opt, k, 0, "the offset is set to an end offset computed as offset+K (more bytes reported consumed than were supplied)")
+								})
+							}
+						}
 						if x.Tok == token.ADD_ASSIGN && len(x.Lhs) == 1 && isOff(x.Lhs[0]) {
 							need("deser/offset-advance-guarded", fmt.Sprintf("%s += %s in %s", exprKey(x.Lhs[0]), exprKey(x.Rhs[0]), fkey), p.posStr(x.Pos()), pt, x.Rhs[0], 0, "the offset is advanced (more bytes reported consumed than were supplied)")
 						}
@@ -1740,8 +1834,9 @@ func checkNoSizeDrivenAlloc(r *Reporter, p *Prog) {
 				}
 			}
 			var edges []Edge
+			szRes := f.KeyAt(mk.Args[1], pt)
 			for _, g := range guards {
-				if g.other == sz {
+				if g.other == sz || (g.otherRes != "" && g.otherRes == szRes) || (g.otherE != nil && f.SameValue(g.otherE, g.otherPt, mk.Args[1], pt)) {
 					edges = append(edges, g.e)
 				}
 			}
